@@ -248,6 +248,48 @@ func runC27v2(p *core.Program, r *core.Report) {
 		}
 	}
 	r.Anchor("SERVE-WHILE-CLIENTS", "exits of the serve loop", nexits >= 2)
+	// connections are accepted by another goroutine than the one that counts
+	// them: a connection that Accept has returned but the loop has not yet
+	// registered (it sits in the hand-over channel, or between Accept and the
+	// send) is a connected client that len(conns) == 0 does not see
+	var acceptIn *ssa.Function
+	for _, f := range p.FnsInPkg(pkgDaemon) {
+		core.Instrs(f, func(ins ssa.Instruction) {
+			if c, ok := ins.(ssa.CallInstruction); ok && c.Common().IsInvoke() && c.Common().Method.Name() == "Accept" && strings.HasSuffix(c.Common().Value.Type().String(), "net.Listener") {
+				acceptIn = f
+			}
+		})
+	}
+	if acceptIn != nil && core.Outer(acceptIn) == core.Outer(loopFn) {
+		async := acceptIn != loopFn
+		construct := lk + " the exit on no clients also sees connections accepted but not yet registered"
+		// accepted: the loop stops accepting (closes the listener) and looks
+		// at the hand-over channel before it decides
+		closesFirst := false
+		for _, pred := range exitPreds {
+			if sigIdx >= 0 && inSignalCase(pred) {
+				continue
+			}
+			for _, b := range loopFn.Blocks {
+				if !b.Dominates(pred) {
+					continue
+				}
+				for _, x := range b.Instrs {
+					if c, ok := x.(ssa.CallInstruction); ok && c.Common().IsInvoke() && c.Common().Method.Name() == "Close" && strings.HasSuffix(c.Common().Value.Type().String(), "net.Listener") && inLoop[b] {
+						closesFirst = true
+					}
+				}
+			}
+		}
+		switch {
+		case !async:
+			r.OK("SERVE-WHILE-CLIENTS", construct, p.Pos(loopFn.Pos()), "the loop goroutine accepts the connections itself")
+		case closesFirst:
+			r.OK("SERVE-WHILE-CLIENTS", construct, p.Pos(loopFn.Pos()), "the listener is closed inside the loop before the decision to exit")
+		default:
+			r.Bad("SERVE-WHILE-CLIENTS", construct, p.Pos(acceptIn.Pos()), "connections are accepted by a separate goroutine and handed to the loop over a channel, and the loop exits when the last registered client leaves without stopping the acceptor first: a client accepted at that moment is connected but never served (the daemon removes its socket and exits while that client waits for a reply)")
+		}
+	}
 	// the connection set is modified only by the loop goroutine: by the loop
 	// function and what it calls synchronously
 	byLoop := syncCallees(loopFn, pkgDaemon)
